@@ -1,0 +1,352 @@
+//! Verification seam. Compiled only with `--cfg gdsl_verif`; the shipped
+//! crate never contains this module.
+//!
+//! `RwLock` and `Mutex` here wrap the real `std::sync` primitives. Every
+//! acquisition is announced to the `LockObserver` installed on the current
+//! thread (if any) before the real lock is taken, and every release after the
+//! real guard is gone. With no observer installed the wrappers behave exactly
+//! like the std types.
+
+use std::cell::RefCell;
+use std::ops::{Deref, DerefMut};
+use std::rc::Rc;
+use std::sync::{LockResult, PoisonError, TryLockError, TryLockResult};
+
+#[derive(Clone, Copy, Debug, PartialEq, Eq, PartialOrd, Ord, Hash)]
+pub enum Mode {
+    Read,
+    Write,
+}
+
+/// Receives lock events of the thread it is installed on. `lock` is the
+/// address of the lock object and is only meaningful as an identity.
+pub trait LockObserver {
+    /// Called before the real lock is acquired. May block (a scheduler parks
+    /// the calling thread here) or unwind (to abort a simulated run).
+    fn before_acquire(&self, lock: usize, mode: Mode);
+    /// Called right after the real lock was acquired. `model_ok` is false when
+    /// the real lock was not immediately available although the observer let
+    /// the acquisition through.
+    fn acquired(&self, lock: usize, mode: Mode, model_ok: bool);
+    /// Called after the real guard was released.
+    fn after_release(&self, lock: usize, mode: Mode);
+}
+
+thread_local! {
+    static OBSERVER: RefCell<Option<Rc<dyn LockObserver>>> = const { RefCell::new(None) };
+}
+
+/// Installs (or with `None` removes) the observer of the current thread and
+/// returns the previous one.
+pub fn install(observer: Option<Rc<dyn LockObserver>>) -> Option<Rc<dyn LockObserver>> {
+    OBSERVER.with(|o| std::mem::replace(&mut *o.borrow_mut(), observer))
+}
+
+fn current() -> Option<Rc<dyn LockObserver>> {
+    OBSERVER.try_with(|o| o.borrow().clone()).ok().flatten()
+}
+
+fn addr<T: ?Sized>(p: &T) -> usize {
+    p as *const T as *const () as usize
+}
+
+// ---------------------------------------------------------------------------
+
+pub struct RwLock<T: ?Sized> {
+    inner: std::sync::RwLock<T>,
+}
+
+pub struct RwLockReadGuard<'a, T: ?Sized + 'a> {
+    guard: Option<std::sync::RwLockReadGuard<'a, T>>,
+    lock: usize,
+    observer: Option<Rc<dyn LockObserver>>,
+}
+
+pub struct RwLockWriteGuard<'a, T: ?Sized + 'a> {
+    guard: Option<std::sync::RwLockWriteGuard<'a, T>>,
+    lock: usize,
+    observer: Option<Rc<dyn LockObserver>>,
+}
+
+impl<T> RwLock<T> {
+    pub fn new(t: T) -> Self {
+        RwLock {
+            inner: std::sync::RwLock::new(t),
+        }
+    }
+
+    pub fn into_inner(self) -> LockResult<T> {
+        self.inner.into_inner()
+    }
+}
+
+impl<T: ?Sized> RwLock<T> {
+    pub fn read(&self) -> LockResult<RwLockReadGuard<'_, T>> {
+        let lock = addr(self);
+        let observer = current();
+        let res = match &observer {
+            None => self.inner.read(),
+            Some(o) => {
+                o.before_acquire(lock, Mode::Read);
+                match self.inner.try_read() {
+                    Ok(g) => {
+                        o.acquired(lock, Mode::Read, true);
+                        Ok(g)
+                    }
+                    Err(TryLockError::Poisoned(p)) => {
+                        o.acquired(lock, Mode::Read, true);
+                        Err(p)
+                    }
+                    Err(TryLockError::WouldBlock) => {
+                        o.acquired(lock, Mode::Read, false);
+                        self.inner.read()
+                    }
+                }
+            }
+        };
+        match res {
+            Ok(g) => Ok(RwLockReadGuard {
+                guard: Some(g),
+                lock,
+                observer,
+            }),
+            Err(p) => Err(PoisonError::new(RwLockReadGuard {
+                guard: Some(p.into_inner()),
+                lock,
+                observer,
+            })),
+        }
+    }
+
+    pub fn write(&self) -> LockResult<RwLockWriteGuard<'_, T>> {
+        let lock = addr(self);
+        let observer = current();
+        let res = match &observer {
+            None => self.inner.write(),
+            Some(o) => {
+                o.before_acquire(lock, Mode::Write);
+                match self.inner.try_write() {
+                    Ok(g) => {
+                        o.acquired(lock, Mode::Write, true);
+                        Ok(g)
+                    }
+                    Err(TryLockError::Poisoned(p)) => {
+                        o.acquired(lock, Mode::Write, true);
+                        Err(p)
+                    }
+                    Err(TryLockError::WouldBlock) => {
+                        o.acquired(lock, Mode::Write, false);
+                        self.inner.write()
+                    }
+                }
+            }
+        };
+        match res {
+            Ok(g) => Ok(RwLockWriteGuard {
+                guard: Some(g),
+                lock,
+                observer,
+            }),
+            Err(p) => Err(PoisonError::new(RwLockWriteGuard {
+                guard: Some(p.into_inner()),
+                lock,
+                observer,
+            })),
+        }
+    }
+
+    /// Non-blocking acquisitions are not scheduling points; a success is
+    /// reported so that the observer's picture of the lock stays exact.
+    pub fn try_read(&self) -> TryLockResult<RwLockReadGuard<'_, T>> {
+        let lock = addr(self);
+        let observer = current();
+        match self.inner.try_read() {
+            Ok(g) => {
+                if let Some(o) = &observer {
+                    o.acquired(lock, Mode::Read, true);
+                }
+                Ok(RwLockReadGuard {
+                    guard: Some(g),
+                    lock,
+                    observer,
+                })
+            }
+            Err(TryLockError::Poisoned(p)) => {
+                if let Some(o) = &observer {
+                    o.acquired(lock, Mode::Read, true);
+                }
+                Err(TryLockError::Poisoned(PoisonError::new(RwLockReadGuard {
+                    guard: Some(p.into_inner()),
+                    lock,
+                    observer,
+                })))
+            }
+            Err(TryLockError::WouldBlock) => Err(TryLockError::WouldBlock),
+        }
+    }
+
+    pub fn try_write(&self) -> TryLockResult<RwLockWriteGuard<'_, T>> {
+        let lock = addr(self);
+        let observer = current();
+        match self.inner.try_write() {
+            Ok(g) => {
+                if let Some(o) = &observer {
+                    o.acquired(lock, Mode::Write, true);
+                }
+                Ok(RwLockWriteGuard {
+                    guard: Some(g),
+                    lock,
+                    observer,
+                })
+            }
+            Err(TryLockError::Poisoned(p)) => {
+                if let Some(o) = &observer {
+                    o.acquired(lock, Mode::Write, true);
+                }
+                Err(TryLockError::Poisoned(PoisonError::new(RwLockWriteGuard {
+                    guard: Some(p.into_inner()),
+                    lock,
+                    observer,
+                })))
+            }
+            Err(TryLockError::WouldBlock) => Err(TryLockError::WouldBlock),
+        }
+    }
+
+    pub fn is_poisoned(&self) -> bool {
+        self.inner.is_poisoned()
+    }
+
+    pub fn get_mut(&mut self) -> LockResult<&mut T> {
+        self.inner.get_mut()
+    }
+}
+
+impl<T: Default> Default for RwLock<T> {
+    fn default() -> Self {
+        RwLock::new(T::default())
+    }
+}
+
+impl<T: ?Sized> Deref for RwLockReadGuard<'_, T> {
+    type Target = T;
+    fn deref(&self) -> &T {
+        self.guard.as_ref().unwrap()
+    }
+}
+
+impl<T: ?Sized> Drop for RwLockReadGuard<'_, T> {
+    fn drop(&mut self) {
+        drop(self.guard.take());
+        if let Some(o) = self.observer.take() {
+            o.after_release(self.lock, Mode::Read);
+        }
+    }
+}
+
+impl<T: ?Sized> Deref for RwLockWriteGuard<'_, T> {
+    type Target = T;
+    fn deref(&self) -> &T {
+        self.guard.as_ref().unwrap()
+    }
+}
+
+impl<T: ?Sized> DerefMut for RwLockWriteGuard<'_, T> {
+    fn deref_mut(&mut self) -> &mut T {
+        self.guard.as_mut().unwrap()
+    }
+}
+
+impl<T: ?Sized> Drop for RwLockWriteGuard<'_, T> {
+    fn drop(&mut self) {
+        drop(self.guard.take());
+        if let Some(o) = self.observer.take() {
+            o.after_release(self.lock, Mode::Write);
+        }
+    }
+}
+
+// ---------------------------------------------------------------------------
+
+pub struct Mutex<T: ?Sized> {
+    inner: std::sync::Mutex<T>,
+}
+
+pub struct MutexGuard<'a, T: ?Sized + 'a> {
+    guard: Option<std::sync::MutexGuard<'a, T>>,
+    lock: usize,
+    observer: Option<Rc<dyn LockObserver>>,
+}
+
+impl<T> Mutex<T> {
+    pub const fn new(t: T) -> Self {
+        Mutex {
+            inner: std::sync::Mutex::new(t),
+        }
+    }
+}
+
+impl<T: ?Sized> Mutex<T> {
+    pub fn lock(&self) -> LockResult<MutexGuard<'_, T>> {
+        let lock = addr(self);
+        let observer = current();
+        let res = match &observer {
+            None => self.inner.lock(),
+            Some(o) => {
+                o.before_acquire(lock, Mode::Write);
+                match self.inner.try_lock() {
+                    Ok(g) => {
+                        o.acquired(lock, Mode::Write, true);
+                        Ok(g)
+                    }
+                    Err(TryLockError::Poisoned(p)) => {
+                        o.acquired(lock, Mode::Write, true);
+                        Err(p)
+                    }
+                    Err(TryLockError::WouldBlock) => {
+                        o.acquired(lock, Mode::Write, false);
+                        self.inner.lock()
+                    }
+                }
+            }
+        };
+        match res {
+            Ok(g) => Ok(MutexGuard {
+                guard: Some(g),
+                lock,
+                observer,
+            }),
+            Err(p) => Err(PoisonError::new(MutexGuard {
+                guard: Some(p.into_inner()),
+                lock,
+                observer,
+            })),
+        }
+    }
+
+    pub fn is_poisoned(&self) -> bool {
+        self.inner.is_poisoned()
+    }
+}
+
+impl<T: ?Sized> Deref for MutexGuard<'_, T> {
+    type Target = T;
+    fn deref(&self) -> &T {
+        self.guard.as_ref().unwrap()
+    }
+}
+
+impl<T: ?Sized> DerefMut for MutexGuard<'_, T> {
+    fn deref_mut(&mut self) -> &mut T {
+        self.guard.as_mut().unwrap()
+    }
+}
+
+impl<T: ?Sized> Drop for MutexGuard<'_, T> {
+    fn drop(&mut self) {
+        drop(self.guard.take());
+        if let Some(o) = self.observer.take() {
+            o.after_release(self.lock, Mode::Write);
+        }
+    }
+}
